@@ -3,11 +3,12 @@
    OCaml types of the same name; N, positive, nat stay the extracted inductive types.
    No Extract Constant. *)
 From Coq Require Import Extraction ExtrOcamlBasic.
-From Pogreb Require Import Base Crc Bytes Record Flat Index Spec DB DBInv.
+From Pogreb Require Import Base Crc Bytes Record Flat Index Spec DB DBInv Bucket Phys PhysProofs.
 Extraction Language OCaml.
 Extraction "model.ml"
   nlen ntake ndrop crc32 le unle encode_rec decode_next parse_tail parse_file parse_alloc header_bytes
-  flat_ops chain_ops px_level px_split px_nkeys px_chains inv_b abs
+  flat_ops chain_ops phys_ops ph_level ph_split ph_nkeys ph_nbuckets ph_free ph_main ph_over ph_main_bytes ph_over_bytes
+  ph_chain phys_inv_b px_level px_split px_nkeys px_chains inv_b abs
   disk0 apply_ev emit emits clear_trace dir flen seg_entries read_kv
   db_put db_delete db_get db_get_append db_has db_count db_items db_sync
   compact_pick compact_step db_compact db_close db_open db_backup backup_plan copy_seg backup_disk
